@@ -264,7 +264,12 @@ class Engine:
                     pe = self.bi.place(d, val)
                     if d["p"][0] == "*" or any(p == "*" for p in d["p"]):
                         cur = cur.replace(val=fz(val))
-                        cur = self.emit(Ev("store", b, si, place=pe, value=e, line=s.get("line")), cur)
+                        bp = box_part(pe)
+                        if bp is not None and bp[1] in ("strong", "weak"):
+                            # a counter overwritten by a plain assignment (`(*b).strong = Cell::new(..)`)
+                            cur = self.emit(Ev("set", b, si, box=bp[0], field=bp[1], value=e, cls=classify_init(e), callee="assignment", line=s.get("line")), cur)
+                        else:
+                            cur = self.emit(Ev("store", b, si, place=pe, value=e, line=s.get("line")), cur)
                         val = dict(cur.val)
                     else:
                         # partial write to a local aggregate: forget its value
